@@ -1,43 +1,62 @@
 (* Props/C12.v — a read-only selection never changes the mailbox.
    Statements only; proofs in RefModel/C12Proofs.v.  The model is
-   RefModel/Model.v (one session's message commands as pymap executes them).
+   RefModel/Model.v (one session's commands as pymap executes them, and labels
+   [LExt] for what OTHER connections do in between: change flags, deliver, expunge).
    "Persistent state" is [st_boxes]: for every mailbox its messages in order
    with UID, flags (so also an implicit \Seen), internal date, content id and
    the STORED \Recent mark (what the next read-write session will be given),
-   its UID counter, read-only bit and permitted flags.
-   All theorems hold for EVERY state: the session's cached view is not assumed
-   to be in sync with the mailbox, so they also cover a session that other
-   sessions have left behind. *)
+   its UID counter, UIDVALIDITY, read-only bit and permitted flags.
+   All theorems hold for EVERY state whose UIDs lie below the UID counters ([wfb]):
+   the session's cached view is not assumed to be in sync with the mailbox. *)
 From PV Require Import Base.Prelude Wire.SeqSet RefModel.Flags RefModel.Model
   RefModel.BoxLemmas RefModel.C12Proofs.
 
-(* C12, strict form: starting with no read-write selection (a mailbox is
-   selected read-only — by EXAMINE or because the backend declares it
-   read-only — or, later in the program, nothing is selected any more), after
-   ANY program of message commands (every command and UID variant, any
-   arguments; no SELECT/EXAMINE, which would end the selection) whose
-   APPEND/COPY/MOVE destinations are read-only or missing, the persistent state
-   of every mailbox is exactly what it was *)
-Theorem C12 : forall st prog,
-  no_rw st -> Forall (fun c => is_select c = false) prog ->
+(* C12 with any number of other sessions: starting with no read-write selection (a
+   mailbox is selected read-only — by EXAMINE or because the backend declares it
+   read-only — or, later in the program, nothing is selected any more), after ANY
+   program of message commands (every command and UID variant, NOOP, CHECK, STATUS,
+   SEARCH, any arguments; no SELECT/EXAMINE, which would end the selection, and no
+   CREATE/DELETE/RENAME, which are not about messages) interleaved with ANY changes
+   made by other connections, and whose APPEND/COPY/MOVE destinations are read-only or
+   missing, the persistent state of every mailbox is exactly what the other
+   connections' changes alone produce: the session contributed nothing *)
+Theorem C12 : forall prog st,
+  no_rw st -> wfb (st_boxes st) -> Forall msg_cmd (lcmds prog) ->
   NoDup (map fst (st_boxes st)) ->
-  (forall n, In n (dests prog) -> not_writable (st_boxes st) n) ->
-  st_boxes (fst (run st prog)) = st_boxes st.
-Proof. exact ro_unchanged. Qed.
+  (forall n, In n (dests (lcmds prog)) -> not_writable (st_boxes st) n) ->
+  st_boxes (fst (run_l st prog)) = fold_left (ext_boxes (st_bk st)) (lexts prog) (st_boxes st).
+Proof. exact ro_erasure. Qed.
 Print Assumptions C12.
 
-(* C12, general form: with writable destinations allowed too, every mailbox
-   keeps all its messages, in place and untouched (flags, date, content, stored
-   \Recent); the only possible difference is messages delivered by APPEND/COPY
-   at the end of a writable mailbox named as destination, with UIDs above the
-   old counter; read-only mailboxes and mailboxes not named as destination are
-   literally unchanged *)
+(* ... and without the restriction on destinations: EVERY command step of such a
+   program, wherever it stands among the other connections' changes, leaves every
+   mailbox as it was except for messages it delivers (APPEND / COPY) at the end of a
+   writable mailbox named as its destination: existing messages keep their place,
+   flags, date, content and stored \Recent; new UIDs are above the old counter;
+   read-only mailboxes and mailboxes that are not the destination are literally
+   unchanged ([box_adds]); a failed MULTIAPPEND only uses up UIDs *)
+Theorem C12_every_step : forall prog st,
+  no_rw st -> wfb (st_boxes st) -> Forall msg_cmd (lcmds prog) ->
+  all_cmd_steps (fun s c s' => only_adds (cmd_D c) (st_boxes s) (st_boxes s')) st prog.
+Proof. exact ro_interleaved. Qed.
+Print Assumptions C12_every_step.
+
+(* the same for a program without interference, as one relation between the first
+   and the last state, by mailbox name *)
 Theorem C12_existing_untouched : forall st prog n b,
-  no_rw st -> Forall (fun c => is_select c = false) prog ->
+  no_rw st -> wfb (st_boxes st) -> Forall msg_cmd prog ->
   lookup n (st_boxes st) = Some b ->
   exists b', lookup n (st_boxes (fst (run st prog))) = Some b' /\ box_adds (dests prog) n b b'.
 Proof. exact ro_only_adds_by_name. Qed.
 Print Assumptions C12_existing_untouched.
+
+Theorem C12_unchanged : forall st prog,
+  no_rw st -> wfb (st_boxes st) -> Forall msg_cmd prog ->
+  NoDup (map fst (st_boxes st)) ->
+  (forall n, In n (dests prog) -> not_writable (st_boxes st) n) ->
+  st_boxes (fst (run st prog)) = st_boxes st.
+Proof. exact ro_unchanged. Qed.
+Print Assumptions C12_unchanged.
 
 (* EXAMINE, and SELECT of a backend-read-only mailbox, give a read-only
    selection and change nothing (no \Recent is claimed) *)
@@ -68,11 +87,11 @@ Theorem ro_refused_move : forall st s uid ss dest,
 Proof. exact C12Proofs.ro_refused_move. Qed.
 Print Assumptions ro_refused_move.
 
-(* ... and APPEND / COPY / MOVE into a read-only mailbox answer NO [READ-ONLY],
-   whatever is selected *)
-Theorem ro_refused_append : forall st box b fl date cid,
+(* ... and APPEND (any number of messages) / COPY / MOVE into a read-only mailbox
+   answer NO [READ-ONLY], whatever is selected *)
+Theorem ro_refused_append : forall st box b msgs,
   lookup box (st_boxes st) = Some b -> b_ro b = true ->
-  step st (CAppend box fl date cid) = (st, mkOut NO CReadOnly []).
+  step st (CAppend box msgs) = (st, mkOut NO CReadOnly []).
 Proof. exact C12Proofs.ro_refused_append. Qed.
 Print Assumptions ro_refused_append.
 
